@@ -51,3 +51,4 @@ revert 057bbdd C05
 revert 95ddb54 C02
 revert 3813bce C05
 revert 54caa68 C05
+revert 2baf53a C07
